@@ -8,7 +8,7 @@ from suites import run_suite, parse_snap, exp_silent
 
 LEAN_MODULES = ['GoSnaps.Props.C05', 'GoSnaps.Props.C05Clean', 'GoSnaps.Props.Tie.SnapshotIO', 'GoSnaps.Props.Tie.CleanIO', 'GoSnaps.Props.Tie.Flows', 'GoSnaps.Props.Tie.CleanTopIO1', 'GoSnaps.Props.Tie.CleanTopIO2', 'GoSnaps.Props.Tie.CleanTopIO3', 'GoSnaps.Props.Tie.CleanTopIO']
 EVIDENCE = dict(exhaustive=True,
-                rule='complete enumeration of CI{on,off} x Update{unset,true,false} x UPDATE_SNAPS{unset,true,clean,other} x 5 entry points x entry{missing,equal,different} and of the Clean cells (sort option x stale present x file sorted); each cell once in-process and once in a process started with the real environment; a cell is non-trivial when the real code produced an event or a write')
+                rule='complete enumeration of CI{on,off} x Update{unset,true,false} x UPDATE_SNAPS{unset,true,clean,other} x 5 entry points x entry{missing,equal,different} (+ the two JSON entry points x {stored in another layout}) and of the Clean cells (sort option x stale present x file sorted); each cell once in-process and once in a process started with the real environment; a cell is non-trivial when the real code produced an event or a write')
 
 UPDS = ['', 'true', 'clean', 'other']
 # spellings that must NOT count as `true` / `clean` (the "any other string" class)
@@ -30,6 +30,10 @@ def cell_world(tag, ci, updopt, upd, kind, state, stored_empty=False):
     stored = {'snap': b'value one', 'json': PRETTY, 'yaml': b'a: 1\n', 'sasnap': b'value one', 'sajson': PRETTY}[kind]
     if stored_empty:
         stored = b''        # an existing snapshot holding the empty value is still an existing snapshot
+    if state == 'reformatted':
+        # the stored text is the SAME document in another layout (recorded with other snaps.JSON options, or
+        # re-indented by a formatter): the formatted value differs, so for the mode table it is `different`
+        stored = stored.replace(b'\n ', b'\n    ').replace(b': ', b':  ')
     if state != 'missing':
         if kind in ('snap', 'json', 'yaml'):
             w.add('fsput %s %s' % (hx('snaps/f.snap'), hx(frame(name + b' - 1', stored))))
@@ -39,7 +43,7 @@ def cell_world(tag, ci, updopt, upd, kind, state, stored_empty=False):
             w.add('fsput %s %s' % (hx('snaps/f_1.snap.json'), hx(stored)))
     ref = w.add('fsdump')
     w.add('begin 1 %s' % hx(name))
-    same = state != 'different'
+    same = state not in ('different',)
     payload = {'snap': b'value one' if same else b'value two',
                'json': b'{"a":1}' if same else b'{"a":2}',
                'yaml': b'a: 1\n' if same else b'a: 2\n',
@@ -53,6 +57,8 @@ def cell_world(tag, ci, updopt, upd, kind, state, stored_empty=False):
         if state == 'equal':
             return exp_silent(line, raw, ww)
         allowed = can_create if state == 'missing' else can_update
+        if state == 'reformatted' and not allowed and kinds == ['L']:
+            return 'a stored text that differs from the formatted value only in layout was rewritten (%r) although updating is not enabled' % line.events[0][1][:40]
         if allowed:
             if kinds != ['L'] or len(line.writes) != 1:
                 return 'the mode table allows the write here: expected one log and one written file, got %r w=%r' % (line.events, line.writes)
@@ -71,7 +77,7 @@ def cell_world(tag, ci, updopt, upd, kind, state, stored_empty=False):
 
     def exp_fs(line, raw, ww):
         a, b = parse_fs(ww.impl[ref]), parse_fs(raw)
-        allowed = (state == 'missing' and can_create) or (state == 'different' and can_update)
+        allowed = (state == 'missing' and can_create) or (state in ('different', 'reformatted') and can_update)
         if not allowed and a != b:
             return 'file system changed although the mode table forbids it'
         if allowed and a == b:
@@ -166,6 +172,11 @@ def all_cells(envfilter=None):
             continue
         n += 1
         worlds.append(cell_world('cell-%d' % n, ci, updopt, upd, kind, state))
+    for ci, updopt, upd, kind in itertools.product([False, True], ['none', 'true', 'false'], UPDS, ['json', 'sajson']):
+        if envfilter and envfilter != (ci, upd):
+            continue
+        n += 1
+        worlds.append(cell_world('cellr-%d' % n, ci, updopt, upd, kind, 'reformatted'))
     for ci, upd, sortopt, stale, sorted_file in itertools.product([False, True], UPDS, ['-', '0', '1'], [False, True], [False, True]):
         if envfilter and envfilter != (ci, upd):
             continue
